@@ -38,6 +38,7 @@ var c12Files = []string{"main.tf", "m/x.tf", "../up.tf", "", "./dot.tf"}
 type c12Finder struct{ node wNode }
 
 var c12Given Diagnostics
+var c12BadRel bool
 
 func (f c12Finder) FindDependencies(fsys fs.FS, subPath string, deps *Dependencies) Diagnostics {
 	c12CrashPoint()
@@ -57,6 +58,12 @@ func (f c12Finder) FindDependencies(fsys fs.FS, subPath string, deps *Dependenci
 		}
 		out = append(out, d)
 		c12Given = append(c12Given, d)
+	}
+	if verif.Bool("badrel") {
+		// a relative dependency that climbs out of the package: the builder itself has to report it
+		l, _ := sourceaddrs.ParseLocalSource("../../up")
+		deps.AddLocalSource(l, c12Finder{f.node})
+		c12BadRel = true
 	}
 	if f.node.pkg == 0 && verif.Bool("dep") {
 		n := wNode{verif.Choose("dep.pkg", wNPkg), 0}
@@ -81,6 +88,7 @@ func HarnessC12Build() {
 	wFaults = verif.Param("faults", 1) == 1
 	c12ManifestSeenEarly = false
 	c12Given = nil
+	c12BadRel = false
 	wCrashPoint = c12CrashPoint
 	b, err := NewBuilder(wTarget, wFetcher{}, wRegistry{})
 	verif.Assume(err == nil)
@@ -142,7 +150,7 @@ func HarnessC12Build() {
 		}
 		verif.Assert("C12-finder-diagnostic-reaches-the-tracer", seen)
 	}
-	if faulted || givenErr {
+	if faulted || givenErr || c12BadRel {
 		verif.Reach("failed-build")
 		verif.Assert("C12-failure-is-reported-as-error-diagnostic", diags.HasErrors())
 		verif.Assert("C12-failed-builder-refuses-further-adds", c12Panics(func() { b.AddRemoteSource(ctx, wSource(n), c12Finder{n}) }))
